@@ -7,7 +7,7 @@ from vf import gen
 
 PID = "C18"
 ANCHORS = ["pyoma2.functions.gen:MAC", "pyoma2.functions.gen:MPC", "pyoma2.functions.gen:MPD", "pyoma2.functions.gen:MCF", "pyoma2.functions.gen:MSF"]
-REQUIRED_MONITORS = ["views-of-one-array@MAC", "set=columns@MCF", "arguments-unchanged+auto-MAC", "mixed-dtype MAC", "range@MAC", "range@MPC", "range@MPD", "range@MCF", "shape+symmetry@MAC", "scale-invariance", "collinear-exact",
+REQUIRED_MONITORS = ["views-of-one-array@MAC", "set=columns@MCF", "arguments-unchanged+auto-MAC", "mixed-dtype MAC", "range@MAC", "range@MPC", "range@MPD", "range@MCF", "shape+symmetry@MAC", "scale-invariance", "collinear-exact", "near-unit-length MAC",
                      "MSF(v,cv)=c", "contracts-active-during-SSI-run"]
 CLASSES = ["generic", "generic_unit_normalised", "generic_zero_or_real_components", "nearly_collinear_1e-8", "nearly_collinear_1e-3", "collinear", "collinear_unit_normalised", "collinear_zero_components",
            "collinear_halves", "constant", "isotropic_reference", "sets"]
@@ -241,6 +241,20 @@ def run_vectors(ctx, case, rng):
         if np.isfinite(vals["MAC"]):
             ctx.check(abs(m2 - vals["MAC"]) <= 1e-6 and abs(m3 - vals["MAC"]) <= 1e-6, "MAC:not_scale_invariant",
                       lambda: f"MAC changes under scaling by c={c2:.4g}: {vals['MAC']!r} -> {m2!r} / {m3!r}")
+        # shapes of (almost) unit length - singular vectors, shapes stored with five decimals, a unit vector times a factor of modulus 1 +- 4e-6:
+        # the criterion normalises by the actual lengths, near one or not
+        u = phi / np.linalg.norm(phi)
+        w = other / np.linalg.norm(other)
+        s_ = complex(rng.choice([1.000004, 0.999996, 1 + 3e-6, 1 - 4.5e-6])) * np.exp(1j * rng.uniform(0, 2 * np.pi))
+        ctx.ev("near-unit-length MAC")
+        m_uw = call(ctx, "MAC", u, w)
+        m_su = call(ctx, "MAC", s_ * u, w)
+        m_self = call(ctx, "MAC", s_ * u, u)
+        r5 = np.round(u, 5)
+        m_r = call(ctx, "MAC", r5, r5) if np.any(r5) else 1.0
+        ok_ = abs(m_su - m_uw) <= 1e-12 and abs(m_self - 1) <= 1e-12 and abs(m_r - 1) <= 1e-12
+        ctx.check(ok_, "MAC:near_unit_length_not_normalised",
+                  lambda: f"unit-length u, w, |s| = {abs(s_):.7f}: MAC(s*u, w) - MAC(u, w) = {m_su - m_uw:.2e}, MAC(s*u, u) - 1 = {m_self - 1:.2e}, MAC(r, r) - 1 = {m_r - 1:.2e} for u rounded to five decimals (n={n})")
         if collinear:
             ctx.ev("collinear-exact")
             real_v = phi0.real
